@@ -43,6 +43,9 @@ type NodeCfg struct {
 	// picks a random subset of peers (map order) and the pool hands pending transactions to
 	// the proposer in map order over senders, which no seed controls.
 	TxGossip bool
+	// EvGossip starts the evidence reactor's real per-peer broadcast routine. Off by default
+	// (same reason); the simulator's gossip model offers pending evidence instead.
+	EvGossip bool
 }
 
 // SavedBlock is what a node handed to its block store.
@@ -327,12 +330,14 @@ func (n *Node) Connect(remote int) *SimPeer {
 	pp = n.Mgr.InitPeer(pp)
 	n.Peers[remote] = p
 	_ = n.Switch.VerifAddPeer(p)
-	// The tx-pool and evidence reactors run their real per-peer routines: they
-	// talk only through peer.Send, i.e. through the simulated network.
+	// The tx-pool and evidence reactors can run their real per-peer routines (they talk only
+	// through peer.Send, i.e. through the simulated network); both are off by default because
+	// their select statements choose among simultaneously ready cases (new item / timer /
+	// peer quit) with the runtime's own coin, which no seed controls.
 	if n.TxR.IsRunning() && n.Cfg.TxGossip {
 		n.TxR.AddPeer(p)
 	}
-	if n.EvR.IsRunning() {
+	if n.EvR.IsRunning() && n.Cfg.EvGossip {
 		n.EvR.AddPeer(p)
 	}
 	return p
